@@ -656,8 +656,10 @@ pub fn gen_case(rng: &mut Rng, tier: &str, profile: &str, stats: &mut Stats) -> 
             keys.push(key_at(&local, b, rng));
         }
     }
-    for _ in 0..6 {
-        let b = rng.below(256) as usize;
+    let nspread = if ip { 16 } else { 6 };
+    for j in 0..nspread {
+        // with IP filters: many different medium buckets, so that one /24 can reach the table limit
+        let b = if ip { 100 + 7 * j as usize + rng.below(5) as usize } else { rng.below(256) as usize };
         keys.push(key_at(&local, b, rng));
     }
     keys.push(local);
@@ -667,10 +669,19 @@ pub fn gen_case(rng: &mut Rng, tier: &str, profile: &str, stats: &mut Stats) -> 
     let nsub = rng.range(2, 3);
     let mut next_val = 0u64;
     let mut vals: Vec<Vec<String>> = Vec::new();
-    for _ in &keys {
+    let nhot_keys = keys.len().saturating_sub(nspread as usize + 9);
+    for (kidx, _) in keys.iter().enumerate() {
         let mut v = Vec::new();
         for j in 0..3 {
-            let sub = if rng.chance(1, 7) { None } else { Some(rng.below(nsub)) };
+            let sub = if !ip {
+                if rng.chance(1, 7) { None } else { Some(rng.below(nsub)) }
+            } else if kidx < nhot_keys {
+                // hot (full) buckets need many records that the bucket filter lets in: mostly no IPv4
+                if rng.chance(7, 10) { None } else { Some(rng.below(nsub)) }
+            } else {
+                // spread keys: mostly the same /24, to saturate the table limit
+                match rng.below(10) { 0 => None, 1 | 2 => Some(1), _ => Some(0) }
+            };
             v.push(format!("v{}:{}", next_val, sub.map(|s| s.to_string()).unwrap_or_else(|| "-".into())));
             next_val += 1;
             if j == 0 && rng.chance(1, 2) {
@@ -679,12 +690,54 @@ pub fn gen_case(rng: &mut Rng, tier: &str, profile: &str, stats: &mut Stats) -> 
         }
         vals.push(v);
     }
+    if ip && rng.chance(1, 3) {
+        // directed prefix: a full bucket of records without IPv4 whose first node is disconnected,
+        // one /24 driven close to the table limit in other buckets, then a pending candidate of
+        // that /24, more inserts of that /24 elsewhere, and finally an access that promotes it.
+        stats.bump("gen.case.directed-pending-saturation");
+        let hb = hot[0];
+        let mut fresh = 1_000_000u64;
+        let mut hot_keys: Vec<[u8; 32]> = Vec::new();
+        for j in 0..16 {
+            let k = key_at(&local, hb, rng);
+            hot_keys.push(k);
+            ops.push(format!("kins {} v{}:- {} o", hx(&k), fresh, if j < 2 { "d" } else { "c" }));
+            fresh += 1;
+        }
+        let near = rng.range(7, 10);
+        let mut b = 20usize;
+        let mut placed = 0;
+        while placed < near {
+            // at most two of one /24 per bucket: use a new bucket every second record
+            let k = key_at(&local, b, rng);
+            ops.push(format!("kins {} v{}:0 c o", hx(&k), fresh));
+            fresh += 1;
+            placed += 1;
+            if placed % 2 == 0 {
+                b += 3;
+            }
+        }
+        let pk = key_at(&local, hb, rng);
+        ops.push(format!("kins {} v{}:0 c o", hx(&pk), fresh));
+        fresh += 1;
+        for _ in 0..rng.range(1, 4) {
+            b += 3;
+            let k = key_at(&local, b, rng);
+            ops.push(format!("kins {} v{}:0 c o", hx(&k), fresh));
+            fresh += 1;
+        }
+        if sleeps {
+            ops.push("ksleep 450".into());
+        }
+        ops.push(format!("kentry {}", hx(&hot_keys[5])));
+        ops.push("kdump".into());
+    }
     let nops = if tier == "thorough" { rng.range(200, 400) } else { rng.range(150, 300) };
     let mut sleeps_left = if sleeps { 2 } else { 0 };
     for i in 0..nops {
         // first third: fill the hot buckets; afterwards churn over the whole universe
-        let nhot = keys.len().saturating_sub(24).max(1);
-        let ki = if i < nops / 3 || rng.chance(2, 3) { rng.below(nhot as u64) as usize } else { rng.below(keys.len() as u64) as usize };
+        let nhot = nhot_keys.max(1);
+        let ki = if i < nops / 3 || rng.chance(if ip { 1 } else { 2 }, 3) { rng.below(nhot as u64) as usize } else { rng.below(keys.len() as u64) as usize };
         let key = hx(&keys[ki]);
         let val = rng.pick(&vals[ki]).clone();
         let conn = if rng.chance(3, 5) { "c" } else { "d" };
